@@ -184,8 +184,8 @@ def case_key(case):
 def evaluate(cases, cfg, tag):
     """Model agreement and specification oracle for a list of implementation traces."""
     work = os.path.join(CACHE, 'work', tag)
-    model = coqrun.run_cases(cases, cfg, work + '-m', fn='check_case', imports='Storage Query World Run')
-    spec = coqrun.run_cases(cases, cfg, work + '-s', fn='spec_check', imports='Storage Query World Run Spec')
+    model = coqrun.run_cases(cases, cfg, work + '-m', fn='check_case', imports='Storage Query World Borrow Run')
+    spec = coqrun.run_cases(cases, cfg, work + '-s', fn='spec_check', imports='Storage Query World Borrow Run Spec')
     out = []
     for c, m, s in zip(cases, model, spec):
         diff = None if m == 'None' else (coqrun.parse_diff(m) or m)
@@ -234,7 +234,21 @@ def run_streams(pid, streams, cfgname, binary, seed, scale, corpus=True):
             for name, cops in load_corpus(wname):
                 c = session.replay_ops(binary, w, [listify_caps(o) for o in cops], cid='corpus-' + name)
                 cases.append(c)
-        cases += gen_ops.generate(binary, w, profile, seed, n * scale, maxlen=maxlen, presets=(profile == 'S7'))
+        if profile == 'BM' and scale == 1 and cfgname != 'dbg':
+            continue   # quick tier: the exhaustive matrix runs on the debug build only
+        if profile == 'BM':
+            # the whole (outer access, inner access) matrix of the runtime-borrowed API, split into chunks
+            for variant in (False, True):
+                mc, _ = gen_ops.borrow_matrix(binary, w, variant)
+                c0 = mc[0]
+                npre = len([o for o in c0['ops'] if o[0] != 'borrow'])
+                bo = list(zip(c0['ops'][npre:], c0['obs'][npre:]))
+                for i in range(0, len(bo), 250):
+                    part = bo[i:i + 250]
+                    cases.append(dict(id='%s-%d' % (c0['id'], i), world=wname, decl=c0['decl'], exhaustive=True,
+                                      ops=c0['ops'][:npre] + [x[0] for x in part], obs=c0['obs'][:npre] + [x[1] for x in part]))
+        else:
+            cases += gen_ops.generate(binary, w, profile, seed, n * scale, maxlen=maxlen, presets=(profile == 'S7'))
         for c in cases:
             c['stream'] = profile
             c['config'] = cfgname
@@ -281,7 +295,7 @@ def minimise(binary, world, cfg, ops, pred, budget=25):
 
 def spec_failure_of(case, cfg, tags, tag):
     work = os.path.join(CACHE, 'work', tag)
-    s = coqrun.run_cases([case], cfg, work + '-s', fn='spec_check', imports='Storage Query World Run Spec')[0]
+    s = coqrun.run_cases([case], cfg, work + '-s', fn='spec_check', imports='Storage Query World Borrow Run Spec')[0]
     if s == 'None':
         return None
     nums = [int(x) for x in re.findall(r'\d+', s)]
@@ -459,6 +473,32 @@ def check(pid, tier, seed):
         path = report_spec(r)
         violations.append('VIOLATION property=%s replay=%s' % (pid, path))
 
+    if pid == 'C11' and not violations:
+        for r in all_results:
+            d = r['diff']
+            if isinstance(d, tuple) and d[0] < len(r['case']['ops']) and r['case']['ops'][d[0]][0] == 'borrow':
+                c = r['case']
+                npre = len([o for o in c['ops'] if o[0] != 'borrow'])
+                ops_min = [o for o in c['ops'][:npre]] + [c['ops'][d[0]]]
+                path = write_replay(pid, dict(property=pid, kind='specification-violation', world=c['world'], config=c['config'], seed=seed,
+                                              reason='a runtime-borrowed access was granted/refused against the RefCell rule (expected = model column)',
+                                              expected=d[1], observed_record=d[2], failing_op_index=len(ops_min) - 1,
+                                              ops=[O.to_rust(o) for o in ops_min], ops_struct=ops_min, observed=c['obs'][:npre] + [c['obs'][d[0]]]))
+                violations.append('VIOLATION property=%s replay=%s' % (pid, path))
+                break
+
+    # C13: the clone audit of stream S11 -- the observation blocks of original and clone must be equal
+    if pid == 'C13' and not violations:
+        for r in all_results:
+            bad = clone_audit(r['case'])
+            if bad is not None:
+                c = r['case']
+                path = write_replay(pid, dict(property=pid, kind='specification-violation', world=c['world'], config=c['config'], seed=seed,
+                                              reason='after clone, the clone answers differently from the original', failing_op_index=bad,
+                                              ops=[O.to_rust(o) for o in c['ops'][:bad + 1]], ops_struct=c['ops'][:bad + 1], observed=c['obs'][:bad + 1]))
+                violations.append('VIOLATION property=%s replay=%s' % (pid, path))
+                break
+
     if not violations and (broken or diffs):
         # search: the specification oracle on more histories, all streams of this property, fresh seeds
         found = None
@@ -494,18 +534,6 @@ def check(pid, tier, seed):
                                 'the search (specification oracle on additional histories) found no input on which the property itself fails')
             path = write_replay(pid, payload)
             violations.append('VIOLATION property=%s replay=%s no-failing-input-found' % (pid, path))
-
-    # C13: the clone audit of stream S11 -- the observation blocks of original and clone must be equal
-    if pid == 'C13' and not violations:
-        for r in all_results:
-            bad = clone_audit(r['case'])
-            if bad is not None:
-                c = r['case']
-                path = write_replay(pid, dict(property=pid, kind='specification-violation', world=c['world'], config=c['config'], seed=seed,
-                                              reason='after clone, the clone answers differently from the original', failing_op_index=bad,
-                                              ops=[O.to_rust(o) for o in c['ops'][:bad + 1]], ops_struct=c['ops'][:bad + 1], observed=c['obs'][:bad + 1]))
-                violations.append('VIOLATION property=%s replay=%s' % (pid, path))
-                break
 
     # known findings: reported, never suppressing anything else
     if pid == 'C03':
@@ -547,6 +575,7 @@ def check(pid, tier, seed):
             streams=[dict(config=cn, cases=s['cases'], ops=s['ops'], ops_by_kind=s['by_kind'], outcomes=s['outcomes']) for cn, s in stats_all],
             samples=([sample] if sample else []) + ([macro_info['sample']] if macro_info else []),
             macro=macro_info,
+            exhaustive=any(r['case'].get('exhaustive') for r in all_results) if pid == 'C11' else False,
             explanation='machine-checked theorems over the model; model tied to the source by translation (coq/gen regenerated this run) and by differential execution of the same operations on the implementation',
         ),
         assumptions=['the hand-written part of the model (coq/model) mirrors the Rust it names; agreement is checked on the streams above, not proved',
@@ -598,7 +627,7 @@ def replay(path):
         print('%-40s => %s' % (O.to_rust(o), ob))
     print('model agreement:', 'yes' if r['diff'] is None else r['diff'])
     print('specification oracle:', r['spec'])
-    if r['spec'] and r['spec']['prop'] in PROPS[pid]['tags']:
+    if (r['spec'] and r['spec']['prop'] in PROPS[pid]['tags']) or (pid == 'C11' and r['diff'] is not None):
         print('VIOLATION property=%s replay=%s' % (pid, path))
         return 1
     return 0
